@@ -138,7 +138,14 @@ async fn serve_leases<IB: Body>(
     _req: Request<IB>,
     dhcp: &std::sync::Arc<crate::dhcp::DhcpService>,
 ) -> Result<Response<Full<Bytes>>, Infallible> {
-    let mut leases = dhcp.get_leases().await;
+    /* An unreadable lease database is an error, not an empty list of leases. */
+    let Ok(mut leases) = dhcp.get_leases().await else {
+        return Ok(Response::builder()
+            .status(hyper::StatusCode::INTERNAL_SERVER_ERROR)
+            .header("Content-type", "text/plain")
+            .body("Failed to read leases\n".into())
+            .unwrap());
+    };
     leases.sort();
     let buffer = format!(
         "{{ \"leases\" : [\n{}\n]}}\n",
